@@ -38,6 +38,8 @@ def run(ctx):
     R.rule_R8_split_unfiltered(ctx, typer)
     R.rule_R9_component_dispatch(ctx, typer, "glob")
     R.rule_R11_attr_value_truth(ctx, typer)
+    R.rule_R12_start_comparator(ctx, typer)
+    R.rule_R9_glob_dead_end(ctx, typer)
     from .common import rule_format_templates
     rule_format_templates(ctx, typer, [f for f in ctx.p.all_funcs if f.module.relpath == R.RES], "R10")
     ctx.floor("R9", 4)
